@@ -721,9 +721,101 @@ func parserOf(w *core.W) *route.Parser {
 	return p
 }
 
+// suiteAnchor: the route table and the hand-written expectations of the repository's own TestTree_Match,
+// transcribed. The reference model must agree with every one of them (an anchor that is independent of both the
+// generators and the implementation's code).
+var suiteAnchorRoutes = []string{
+	"/webapi",
+	"/webapi/users/?{id}",
+	"/webapi/users/ids/{id: /[0-9]+/}",
+	"/webapi/users/ids/{sha: /[a-z0-9]{7,40}/}",
+	"/webapi/users/sessions/{paths: **}",
+	"/webapi/users/events/{names: **}/feed",
+	"/webapi/users/settings/?profile",
+	"/webapi/projects/{name}/hashes/{paths: **, capture: 2}/blob/{lineno: /[0-9]+/}",
+	"/webapi/projects/{name}/commit/{sha: /[a-z0-9]{7,40}/}/main.go",
+	`/webapi/projects/{name}/commit/{sha: /[a-z0-9]{7,40}/}{ext: /(\.(patch|diff))?/}`,
+	"/webapi/articles/{category}/{year: /[0-9]{4}/}-{month}-{day}.json",
+	"/webapi/groups/{name: **, capture: 2}",
+	"/webapi/special/test@$",
+	"/webapi/special/%_",
+}
+
+var suiteAnchorCases = []struct {
+	path   string
+	ok     bool
+	route  int
+	params map[string]string
+}{
+	{"/webapi", true, 0, map[string]string{}},
+	{"/webapi/users", true, 1, map[string]string{}},
+	{"/webapi/users/12", true, 1, map[string]string{"id": "12"}},
+	{"/webapi/users/ids/123", true, 2, map[string]string{"id": "123"}},
+	{"/webapi/users/ids/368c7b2d0b1e0b243b2", true, 3, map[string]string{"sha": "368c7b2d0b1e0b243b2"}},
+	{"/webapi/users/sessions/ab/cd/ef/gh", true, 4, map[string]string{"paths": "ab/cd/ef/gh"}},
+	{"/webapi/users/events/ab/cd/ef/gh/feed", true, 5, map[string]string{"names": "ab/cd/ef/gh"}},
+	{"/webapi/projects/flamego/hashes/src/lib/blob/15", true, 7, map[string]string{"name": "flamego", "paths": "src/lib", "lineno": "15"}},
+	{"/webapi/projects/flamego/commit/368c7b2d0b1e0b243b2/main.go", true, 8, map[string]string{"name": "flamego", "sha": "368c7b2d0b1e0b243b2"}},
+	{"/webapi/projects/flamego/commit/368c7b2d0b1e0b243b2", true, 9, map[string]string{"name": "flamego", "sha": "368c7b2d0b1e0b243b2", "ext": ""}},
+	{"/webapi/projects/flamego/commit/368c7b2d0b1e0b243b2.patch", true, 9, map[string]string{"name": "flamego", "sha": "368c7b2d0b1e0b243b2", "ext": ".patch"}},
+	{"/webapi/articles/social/2021-05-03.json", true, 10, map[string]string{"category": "social", "year": "2021", "month": "05", "day": "03"}},
+	{"/webapi/groups/flamego/flamego", true, 11, map[string]string{"name": "flamego/flamego"}},
+	{"/webapi/special/test@$", true, 12, map[string]string{}},
+	{"/webapi/special/%_", true, 13, map[string]string{}},
+	{"/webapi/users/settings", true, 6, map[string]string{}},
+	{"/webapi/users/settings/profile", true, 6, map[string]string{}},
+	{"/webapi//", false, 0, nil},
+	{"/webapi/users/ids/abc", false, 0, nil},
+	{"/webapi/projects/flamego/hashes/src/lib/blob/abc", false, 0, nil},
+	{"/webapi/projects/flamego/commit/368c7b/main.go", false, 0, nil},
+	{"/webapi/articles/social/21-05-03.json", false, 0, nil},
+	{"/webapi/articles/social/year-05-03.json", false, 0, nil},
+	{"/webapi/articles/social/2021-05.json", false, 0, nil},
+	{"/webapi/groups/flamego/flamego/flamego", false, 0, nil},
+	{"/webapi/projects/flamego/hashes/src/lib/main.c/blob/15", false, 0, nil},
+}
+
+func suiteAnchor(r *core.Run) {
+	m := rmodel.New()
+	for i, t := range suiteAnchorRoutes {
+		rt, err := rmodel.Parse(t)
+		if err != nil {
+			r.Canary("suite anchor: reference parser accepts "+t, false)
+			return
+		}
+		if cat, _ := m.Add(i, rt); cat != rmodel.RejNone {
+			r.Canary("suite anchor: model accepts "+t, false)
+			return
+		}
+	}
+	all := true
+	for _, c := range suiteAnchorCases {
+		best, _ := m.Dispatch(c.path, nil)
+		ok := (best != nil) == c.ok
+		if ok && best != nil {
+			ok = best.Form.RouteIdx == c.route
+			got := best.Params()
+			for k, v := range c.params {
+				if got[k] != v {
+					ok = false
+				}
+			}
+			if len(got) != len(c.params) {
+				ok = false
+			}
+		}
+		if !ok {
+			all = false
+			r.Note("suite anchor disagreement on " + c.path)
+		}
+	}
+	r.Canary("reference model agrees with the 26 hand-written expectations of the repository's TestTree_Match", all)
+}
+
 // routeCanaries feeds the comparators synthetic observations that violate the
 // property; every one must be flagged.
 func routeCanaries(r *core.Run) {
+	suiteAnchor(r)
 	mk := func(txts ...string) *rmodel.Model {
 		m := rmodel.New()
 		for i, t := range txts {
